@@ -35,7 +35,7 @@ class CS1:
         r = self.r
         k = r.randrange(8)
         if d > 1 or k < 3 or not self.strs:
-            return repr(r.choice(['a', 'hello', 'World', '', 'x y', 'tab\tbed', "it's", 'line\nbreak']))
+            return repr(r.choice(['a', 'hello', 'World', '', 'x y', 'tab\tbed', "it's", 'line\nbreak', 'cr\rback', 'dos\r\nline']))
         if k < 5:
             return r.choice(self.strs)
         if k < 6:
